@@ -63,7 +63,10 @@ def CTables.own (C : CTables) (V r : Nat) : Bool := CTables.ownAt C.T.enterM V r
 /-- BaseVisitor.EnterOC_r reports "rule is not supported" -/
 def CTables.baseErr (C : CTables) (r : Nat) : Bool := (C.T.enterM.getD r []).any (fun m => m.1 == C.T.base && m.2.1)
 def CTables.content (C : CTables) (r : Nat) : Bool := (termToks (C.terms.getD r (.seq []))).any (fun s => !(C.structural.contains s))
-def CTables.errorStop (C : CTables) (V r : Nat) : Bool := C.baseErr r && !(CTables.ownAt C.T.enterM V r)
+/-- entering r with V on top reports "rule is not supported": BaseVisitor's method (not overridden by V), or V's own
+method that unconditionally calls newUnsupportedRuleError -/
+def CTables.errorStop (C : CTables) (V r : Nat) : Bool :=
+  (C.baseErr r && !(CTables.ownAt C.T.enterM V r)) || C.T.unsupM.contains (V, r)
 def CTables.flagged (C : CTables) (p : Nat × Nat) : Bool :=
   !(C.errorStop p.1 p.2) && !(C.own p.1 p.2) && C.content p.2 && !(C.benign.contains p)
 def CTables.stops (C : CTables) (p : Nat × Nat) : Bool := C.errorStop p.1 p.2 || C.flagged p
@@ -135,7 +138,7 @@ method), ignored (stub in every active visitor), unreachable -/
 def CTables.ruleClass (C : CTables) (active : List (Nat × Nat)) (r : Nat) : String :=
   let vs := (active.filter (·.2 == r)).map (·.1)
   if vs.isEmpty then "unreachable"
-  else if C.baseErr r && !(vs.any (fun v => CTables.ownAt C.T.enterM v r)) then "unsupported"
+  else if vs.all (fun v => C.errorStop v r) then "unsupported"
   else if vs.any (fun v => C.own v r) then "represented"
   else "ignored"
 
